@@ -118,12 +118,14 @@ func (r Resources) Match(pattern, input string) bool {
 	starIdx, matchIdx := -1, 0
 
 	for sIdx < len(input) {
-		if pIdx < len(pattern) && (pattern[pIdx] == '?' || pattern[pIdx] == input[sIdx]) {
-			sIdx++
-			pIdx++
-		} else if pIdx < len(pattern) && pattern[pIdx] == '*' {
+		if pIdx < len(pattern) && pattern[pIdx] == '*' {
+			// a '*' in the pattern is always a wildcard, also when the input
+			// holds a literal '*' at this position
 			starIdx = pIdx
 			matchIdx = sIdx
+			pIdx++
+		} else if pIdx < len(pattern) && (pattern[pIdx] == '?' || pattern[pIdx] == input[sIdx]) {
+			sIdx++
 			pIdx++
 		} else if starIdx != -1 {
 			pIdx = starIdx + 1
